@@ -78,3 +78,8 @@ package transport
 //@ func (*connHandshaker).Wait
 //@   before call:Wait#1 assert len(h.doneq) == 0 && !h.closed
 //@   ensures h.closed ==> result1 == mangos.ErrClosed && isnil(result0)
+
+// ---- round 5 ----
+//@ func (*connHandshaker).Wait
+//@   before return#3 assert len(h.doneq) == len(at("if#3", h.doneq)) - 1 && forall(k, 0, len(h.doneq), h.doneq[k] == at("if#3", h.doneq)[k+1])
+//@   before return#3 assert item.c == at("if#3", h.doneq)[0].c && item.e == at("if#3", h.doneq)[0].e
